@@ -18,6 +18,18 @@ CLAIMS = {
              "Rust std Unicode tables assumed.",
         tech="Lean 4 proof (invariant over all DSL programs, induction on fuel) + differential correspondence model vs code",
         ref="DESIGN.md §7 C01"),
+    "C02": dict(
+        text="Lean theorems: check_sound (a verified static progress/no-panic checker for the parser DSL: if it accepts, every "
+             "function terminates from every state, by well-founded induction on (remaining input, rank)), grammar_checks "
+             "(the checker accepts the concrete grammar, by kernel evaluation), parser_terminates / no_parser_panic (for every "
+             "input the parser model finishes for some fuel and never hits assert!/\"error token without message\"), "
+             "error_ranges_wellformed (generic over all DSL programs), messages_nonempty (regenerated table). Tied to the Rust "
+             "parser by tree/error correspondence and by a step-budget hook that turns non-progress into a deterministic panic; "
+             "nesting depth 256 exercised on both sides.",
+        note="rowan tree-builder panics are admitted by the theorem's `Fine` predicate (not excluded statically); the linear "
+             "work constant is measured (steps per token on both sides), not proved; stack depth is a runtime measurement.",
+        tech="Lean 4 proof: verified abstract-interpretation checker (total-correctness soundness theorem) + decide +kernel on the grammar",
+        ref="DESIGN.md §7 C02"),
     "C10": dict(
         text="Lean theorems for all texts: roundtrip (every char-boundary offset converts to a position and back), "
              "boundary_has_position (totality), line_contains, column_is_utf16, only LF/CR/CRLF break lines, clamp, "
